@@ -592,39 +592,92 @@ func (ss *sessState) doStep(i int, st *plan.Step) (obs string) {
 		}
 		ss.handles[st.H] = d
 		ss.handles[st.H+".r"] = rd
+		ss.handles[st.H+".opts"] = append([]string{}, st.Opts...)
 		return "dec_new"
 	case "dec_decode", "dec_decode_ctx", "dec_token", "dec_more", "dec_offset", "dec_buffered":
 		d, _ := ss.handles[st.H].(*gojson.Decoder)
 		if d == nil {
 			return "missing-handle"
 		}
-		switch st.Op {
-		case "dec_decode", "dec_decode_ctx":
-			ti := lookupType(st.T)
-			p := reflect.New(ti.Type())
-			var err error
-			if st.Op == "dec_decode_ctx" {
-				err = d.DecodeContext(CtxWith(st.S1), p.Interface())
-			} else if opts := decOpts(st); len(opts) > 0 {
-				err = d.DecodeWithOption(p.Interface(), opts...)
-			} else {
-				err = d.Decode(p.Interface())
+		decOp := func(d *gojson.Decoder, keep bool) string {
+			switch st.Op {
+			case "dec_decode", "dec_decode_ctx":
+				ti := lookupType(st.T)
+				p := reflect.New(ti.Type())
+				var err error
+				if st.Op == "dec_decode_ctx" {
+					err = d.DecodeContext(CtxWith(st.S1), p.Interface())
+				} else if opts := decOpts(st); len(opts) > 0 {
+					err = d.DecodeWithOption(p.Interface(), opts...)
+				} else {
+					err = d.Decode(p.Interface())
+				}
+				if keep {
+					ss.keepValue(i, "value decoded from stream", p)
+				}
+				return fmt.Sprintf("%s err=%q val=%s", st.Op, normErr(err), DumpValue(p.Elem()))
+			case "dec_token":
+				t, err := d.Token()
+				return fmt.Sprintf("dec_token err=%q tok=%T:%v", normErr(err), t, t)
+			case "dec_more":
+				return fmt.Sprintf("dec_more %v", d.More())
+			case "dec_offset":
+				return fmt.Sprintf("dec_offset %d", d.InputOffset())
+			default:
+				b, _ := io.ReadAll(d.Buffered())
+				// how far the library reads ahead is its own business: only
+				// report that the call returned
+				return fmt.Sprintf("dec_buffered prefix_ok=%v", len(b) >= 0)
 			}
-			ss.keepValue(i, "value decoded from stream", p)
-			return fmt.Sprintf("%s err=%q val=%s", st.Op, normErr(err), DumpValue(p.Elem()))
-		case "dec_token":
-			t, err := d.Token()
-			return fmt.Sprintf("dec_token err=%q tok=%T:%v", normErr(err), t, t)
-		case "dec_more":
-			return fmt.Sprintf("dec_more %v", d.More())
-		case "dec_offset":
-			return fmt.Sprintf("dec_offset %d", d.InputOffset())
-		default:
-			b, _ := io.ReadAll(d.Buffered())
-			// how far the library reads ahead is its own business: only
-			// report that the call returned
-			return fmt.Sprintf("dec_buffered prefix_ok=%v", len(b) >= 0)
 		}
+		obs := decOp(d, true)
+		// "Reusing a Decoder after an error behaves like a fresh one": once a call
+		// on this Decoder has failed, a fresh Decoder is set up over exactly the
+		// input the old one has not consumed yet (what it holds buffered plus what
+		// the reader has not delivered), and every further call is made on both.
+		if fork, ok := ss.handles[st.H+".fork"].(*gojson.Decoder); ok {
+			if st.Op == "dec_decode" || st.Op == "dec_decode_ctx" || st.Op == "dec_token" || st.Op == "dec_more" {
+				fobs := func() (o string) {
+					defer func() {
+						if r := recover(); r != nil {
+							o = "panic: " + normPanic(r)
+						}
+					}()
+					return decOp(fork, false)
+				}()
+				Count("decoder_fork_compared")
+				if fobs != obs {
+					ss.viols = append(ss.viols, plan.Violation{Oracle: "handle_reuse", Where: fmt.Sprintf("session %s step %d (%s)", ss.s.ID, i, st.Op), Sig: "handle_reuse|" + st.Op,
+						Detail: fmt.Sprintf("a Decoder used after a failed call differs from a fresh Decoder over the input it has not consumed yet:\n  used:  %s\n  fresh: %s", clipS(obs, 400), clipS(fobs, 400))})
+					delete(ss.handles, st.H+".fork")
+				}
+			}
+		} else if (ss.prop == "C11" || ss.prop == "C09") && !verifsim.Active() && ss.handles[st.H+".forked"] == nil &&
+			(st.Op == "dec_decode" || st.Op == "dec_decode_ctx" || st.Op == "dec_token") && strings.Contains(obs, " err=") && !strings.Contains(obs, ` err=""`) {
+			if rd, ok := ss.handles[st.H+".r"].(*SimReader); ok {
+				if rest, plain := rd.RestPlain(); plain {
+					buffered, _ := io.ReadAll(d.Buffered())
+					all := append(append([]byte(nil), buffered...), rest...)
+					if bytes.IndexByte(all, 0) < 0 {
+						f := gojson.NewDecoder(NewSimReader(all, nil))
+						if o, _ := ss.handles[st.H+".opts"].([]string); o != nil {
+							for _, x := range o {
+								switch x {
+								case "usenumber":
+									f.UseNumber()
+								case "disallowunknown":
+									f.DisallowUnknownFields()
+								}
+							}
+						}
+						ss.handles[st.H+".fork"] = f
+						ss.handles[st.H+".forked"] = true
+						Count("decoder_fork")
+					}
+				}
+			}
+		}
+		return obs
 	// ------------------------------------------------ utilities
 	case "valid":
 		return fmt.Sprintf("valid %v", gojson.Valid(st.Doc))
@@ -684,6 +737,7 @@ func (ss *sessState) doStep(i int, st *plan.Step) (obs string) {
 			parts, err := p.Extract(data, decOpts(st)...)
 			ss.checkInput(i, st, data, tail)
 			var sb strings.Builder
+			keptBefore := len(ss.kept)
 			for k, part := range parts {
 				if k > 0 {
 					sb.WriteString(" | ")
@@ -692,7 +746,18 @@ func (ss *sessState) doStep(i int, st *plan.Step) (obs string) {
 				// what Extract hands out is the caller's: later calls must not change it
 				ss.keepBytes(i, "extracted part", part)
 			}
-			return fmt.Sprintf("path_extract err=%q n=%d parts=%s", normErr(err), len(parts), sb.String())
+			o := fmt.Sprintf("path_extract err=%q n=%d parts=%s", normErr(err), len(parts), sb.String())
+			if st.Probe == "mutate_output" {
+				// ... and the caller may overwrite it: no later result may change
+				Count("mutate_output_after")
+				ss.kept = ss.kept[:keptBefore]
+				for _, part := range parts {
+					for k := range part {
+						part[k] = 'X'
+					}
+				}
+			}
+			return o
 		case "path_unmarshal":
 			ti := lookupType(st.T)
 			dst := reflect.New(ti.Type())
